@@ -1,2 +1,108 @@
-(* C11 -- token buckets.  Statements are added as BucketProofs.v / TwoRateProofs.v land. *)
-From ONL Require Import Elem.Bucket Elem.TwoRate.
+(* C11 -- token-bucket output conforms to (rate, bucket) and delays nothing needlessly; two-rate colours.
+   Only statements, closed by the lemma that proves them, and their assumptions.
+   Vocabulary (Elem/Bucket.v, Elem/BucketProofs.v): tb_run c (tb0 true c t0) acts = Some (s, tr) says that
+   acts is an admissible execution of the (repaired) TokenBucket from its initial state at instant t0;
+   puts / heads / debits / fwds tr are its timed put() calls, the instants packets reached the head of the
+   queue with the server free, the instants their tokens were taken, and their departures (out.put). *)
+From Coq Require Import ZArith QArith Qminmax List.
+From ONL Require Import Elem.Packet Elem.StoreQ Elem.Bucket Elem.BucketProofs.
+Import ListNotations.
+
+(* ---------------- TokenBucket ---------------- *)
+
+(* every admissible execution is an instance of the recurrence: service k concerns arrival k; it reaches
+   the head at max(arrival_k, departure_(k-1)); the bucket then holds min(B, L + rate*(h - U)/8) where (L, U)
+   are level and instant of the previous debit ((B, t0) at first: initially full); the debit instant is
+   [release]; the departure is 8*size/peak later; at most the packet in service is still missing from the
+   debits/departures, and its stored deadline is the recurrence's instant, not yet passed *)
+Theorem C11_tb_recurrence : forall c t0 acts s tr,
+  0 < rate c -> tb_run c (tb0 true c t0) acts = Some (s, tr) ->
+  exists R, chain c (bsize c) t0 t0 R /\ puts tr = sv_arr R ++ sq_held (tq s) /\ tb_matches s tr R.
+Proof. exact tb_spec. Qed.
+Print Assumptions C11_tb_recurrence.
+
+(* [release] is the EARLIEST instant >= h at which the bucket holds the packet's size *)
+Theorem C11_tb_release_is_least : forall B r h lvl size,
+  0 < r -> lvl <= B ->
+  let d := release r h lvl size in
+  h <= d /\ size <= tokens_at B r h lvl size d /\
+  (forall t, h <= t -> t < d -> tokens_at B r h lvl size t < size).
+Proof. exact release_least. Qed.
+Print Assumptions C11_tb_release_is_least.
+
+Theorem C11_tb_release_instant : forall c t0 acts s tr,
+  0 < rate c -> tb_run c (tb0 true c t0) acts = Some (s, tr) ->
+  (forall k t p, nth_error (debits tr) k = Some (t, p) ->
+     exists h lvl,
+       (exists h', nth_error (heads tr) k = Some (h', p) /\ h' == h) /\
+       lvl <= bsize c /\ (k = 0%nat -> lvl == refill (bsize c) (rate c) (bsize c) t0 h) /\
+       h <= t /\ t == release (rate c) h lvl (sz p) /\
+       sz p <= tokens_at (bsize c) (rate c) h lvl (sz p) t /\
+       (forall t', h <= t' -> t' < t -> tokens_at (bsize c) (rate c) h lvl (sz p) t' < sz p)) /\
+  (forall p dl, phase s = PTok p dl \/ phase s = PPeak p dl -> tnow s <= dl).
+Proof. exact tb_release_instant. Qed.
+Print Assumptions C11_tb_release_instant.
+
+(* no needless delay before the head either: packet k is at the head, server free, at
+   max(arrival_k, departure_(k-1)) *)
+Theorem C11_tb_head_instant : forall c t0 acts s tr,
+  0 < rate c -> tb_run c (tb0 true c t0) acts = Some (s, tr) ->
+  forall k h p, nth_error (heads tr) k = Some (h, p) ->
+    exists a, nth_error (puts tr) k = Some (a, p) /\ a <= h /\
+      match k with
+      | O => h == Qmax a t0
+      | S k' => exists d p', nth_error (fwds tr) k' = Some (d, p') /\ h == Qmax a d
+      end.
+Proof. exact tb_head_instant. Qed.
+Print Assumptions C11_tb_head_instant.
+
+(* initially full: the first packet, if the bucket can hold it, is debited the instant it arrives *)
+Theorem C11_tb_initially_full : forall c t0 acts s tr,
+  0 < rate c -> tb_run c (tb0 true c t0) acts = Some (s, tr) ->
+  forall t p, nth_error (debits tr) 0 = Some (t, p) -> sz p <= bsize c ->
+    exists a, nth_error (puts tr) 0 = Some (a, p) /\ t == Qmax a t0.
+Proof. exact tb_initially_full. Qed.
+Print Assumptions C11_tb_initially_full.
+
+(* the constructor of the pinned commit (update_time = 0.0) violates it for a negative initial time *)
+Theorem C11_tb_initially_full_refuted_before_fix :
+  exists c t0 acts s tr t p a,
+    0 < rate c /\ tb_run c (tb0 false c t0) acts = Some (s, tr) /\
+    nth_error (debits tr) 0 = Some (t, p) /\ sz p <= bsize c /\
+    nth_error (puts tr) 0 = Some (a, p) /\ ~ t == Qmax a t0.
+Proof. exact tb_initially_full_refuted_before_fix. Qed.
+Print Assumptions C11_tb_initially_full_refuted_before_fix.
+
+(* for debit instants t_i <= t_j of departures i <= j:
+   size_i + ... + size_j <= max(B, size_i) + rate * (t_j - t_i) / 8 *)
+Theorem C11_tb_conformance : forall c t0 acts s tr,
+  0 < rate c -> tb_run c (tb0 true c t0) acts = Some (s, tr) ->
+  forall i j ti pi tj pj, (i <= j)%nat ->
+    nth_error (debits tr) i = Some (ti, pi) -> nth_error (debits tr) j = Some (tj, pj) ->
+    ti <= tj /\
+    bytes (slice i j (debits tr)) <= Qmax (bsize c) (sz pi) + fill (rate c) (tj - ti).
+Proof. exact tb_conformance. Qed.
+Print Assumptions C11_tb_conformance.
+
+(* consecutive departures are at least 8*size/peak (of the later packet) apart *)
+Theorem C11_tb_peak_spacing : forall c t0 acts s tr,
+  0 < rate c -> tb_run c (tb0 true c t0) acts = Some (s, tr) ->
+  forall k t1 p1 t2 p2,
+    nth_error (fwds tr) k = Some (t1, p1) -> nth_error (fwds tr) (S k) = Some (t2, p2) ->
+    (peak_on c = None -> t1 <= t2) /\ forall pk, peak_on c = Some pk -> t1 + spacing pk (sz p2) <= t2.
+Proof. exact tb_peak_spacing. Qed.
+Print Assumptions C11_tb_peak_spacing.
+
+(* first in first out: the departures are, in order, a prefix of the arrivals *)
+Theorem C11_tb_fifo : forall c t0 acts s tr,
+  0 < rate c -> tb_run c (tb0 true c t0) acts = Some (s, tr) ->
+  exists rest, map snd (puts tr) = map snd (fwds tr) ++ rest.
+Proof. exact tb_fifo. Qed.
+Print Assumptions C11_tb_fifo.
+
+(* nothing is lost: once nothing of the bucket is due and no timeout is pending, every packet put in has left *)
+Theorem C11_tb_lossless : forall c t0 acts s tr,
+  0 < rate c -> tb_run c (tb0 true c t0) acts = Some (s, tr) -> tb_quiescent s ->
+  map snd (fwds tr) = map snd (puts tr).
+Proof. exact tb_lossless. Qed.
+Print Assumptions C11_tb_lossless.
